@@ -236,6 +236,9 @@ namespace N // c1
 """,
 }
 EXT = {"C": ".c", "CPP": ".cpp", "JAVA": ".java", "CS": ".cs", "OC": ".m"}
+# a trailing comment directly behind an operator in every column 1..24 of the comment: comment writers place these themselves
+TRAILCMT = "int tc(int a, int d)\n{\n" + "".join("    a = %s / // d%d\n        2;\n    a = %s * /* e%d */ 3;\n" % ("a" * n, n, "a" * n, n) for n in range(1, 22)) + "    return a;\n}\n"
+
 
 
 def variants(lang):
@@ -250,6 +253,8 @@ def variants(lang):
         else:
             lines.append(l)
     out.append(("cc", "\n".join(lines)))
+    if lang in ("C", "CPP"):
+        out.append(("tc", TRAILCMT))
     return out
 
 
@@ -285,13 +290,17 @@ def directed_configs(unc, rng, quick):
         elif o["kind"] in ("num", "unum") and o["name"] != "nl_max":
             for v in ("1", "2"):
                 rest.append(("%s=%s" % (o["name"], v), "%s=%s\n" % (o["name"], v)))
+    for tab in (2, 3, 4, 8):
+        rest.insert(0, ("indent_cmt_with_tabs tab=%d" % tab, "indent_cmt_with_tabs=true\noutput_tab_size=%d\nalign_right_cmt_span=0\n" % tab))
     rest.append(("code_width=30", "code_width=30\n"))
     rest.append(("code_width=60", "code_width=60\nls_func_split_full=true\nls_for_split_full=true\n"))
     rest.append(("all nl remove", cfggen.all_iarf(unc, "nl_", "remove")))
     rest.append(("all nl force", cfggen.all_iarf(unc, "nl_", "force")))
     if quick:
+        keep = [r for r in rest if r[0].startswith("indent_cmt_with_tabs")]
+        rest = [r for r in rest if not r[0].startswith("indent_cmt_with_tabs")]
         rng.shuffle(rest)
-        rest = rest[:90] + [r for r in rest[90:] if r[0].startswith("all nl")]
+        rest = keep + rest[:90] + [r for r in rest[90:] if r[0].startswith("all nl")]
     return out + rest
 
 
